@@ -130,15 +130,49 @@ def covered(ctx, s, fn, writes, header, required_sites=None):
 
 
 def reader_ranges(ctx, s, fn):
+    """constant byte ranges of the packed bytes that fn reads: direct slices `b[lo..hi]` and pieces cut off with
+    split_at (`b.split_at(lo).1.split_at(n).0`), composed to absolute ranges"""
     an = ctx.E.an(fn)
     P = ctx.E.prover(fn)
-    out = set()
-    for b, info in an.calls():
-        v = info["value"]
+
+    def absr(v, depth=0):
+        """(lo, hi) absolute constant range of a derived slice value, hi None = to the end; None if not derivable"""
+        if depth > 8:
+            return None
+        if v[0] in ("ref", "byref", "unsize") and isinstance(v[1], tuple):
+            return absr(v[1], depth + 1)
         if v[0] == "slice":
+            base = absr(v[1], depth + 1) or (0, None)
             lo, hi = _lin_const(P, v[2]), _lin_const(P, v[3])
-            if lo is not None and hi is not None:
-                out.add((lo, hi))
+            if lo is None or hi is None:
+                return None
+            return (base[0] + lo, base[0] + hi)
+        if v[0] == "slicefrom":
+            base = absr(v[1], depth + 1) or (0, None)
+            lo = _lin_const(P, v[2])
+            return None if lo is None else (base[0] + lo, base[1])
+        if v[0] == "sliceto":
+            base = absr(v[1], depth + 1) or (0, None)
+            hi = _lin_const(P, v[2])
+            return None if hi is None else (base[0], base[0] + hi)
+        if v[0] == "proj" and v[2][0] == "f" and v[1][0] == "call" and v[1][1].startswith("core::slice::") and \
+                v[1][1].rsplit("::", 1)[-1] in ("split_at", "split_at_mut") and len(v[1][2]) == 2:
+            base = absr(v[1][2][0], depth + 1) or (0, None)
+            mid = _lin_const(P, v[1][2][1])
+            if mid is None:
+                return None
+            return (base[0], base[0] + mid) if v[2][1] == 0 else (base[0] + mid, base[1])
+        return None
+    out = set()
+    vals = list(an.stmt_val.values()) + [i.get("value") for i in an.term.values() if i.get("value")] + \
+        [a for i in an.term.values() if i.get("args") for a in i["args"]]
+    for v in vals:
+        if v is None:
+            continue
+        for x in find_values(v, lambda y: y[0] in ("slice", "proj")):
+            r = absr(x)
+            if r is not None and r[1] is not None:
+                out.add(r)
     return out
 
 
